@@ -10,7 +10,7 @@ from props.C06 import describe, rules
 
 REQUIRED_THEOREMS = ['Usid.C19.sidpy_coords', 'Usid.C19.image_pixels', 'Usid.C19.array_rejected_before_file',
                      'Usid.C19.array_valid_iff', 'Usid.C19.array_layout', 'Usid.C19.unfixed_reshape_counterexample']
-RULE = ('[also: an extra dataset holding an integer that single precision cannot represent, element kinds of the stored extras observed] [also: dimension / axis values that are not increasing, lazy inputs in several chunks, dtype= / compression= keyword arguments, verbose=True] three families. ARRAY: generator datasets through ArrayTranslator as numpy or dask arrays, dimension lists given '
+RULE = ('[also: images as comma-separated text, colour png, tif, bmp; resampling filters NEAREST / BILINEAR / BOX; the recorded binning, filter, image_min / image_max observed] [also: an extra dataset holding an integer that single precision cannot represent, element kinds of the stored extras observed] [also: dimension / axis values that are not increasing, lazy inputs in several chunks, dtype= / compression= keyword arguments, verbose=True] three families. ARRAY: generator datasets through ArrayTranslator as numpy or dask arrays, dimension lists given '
         'fastest first (or a bare Dimension), with/without parameter dictionaries and extra datasets (lists, arrays, '
         'dask arrays), a pre-existing file at the output path or none, and one (sometimes two) invalidities out of: '
         'non-string argument, data that is not an array / not 2D, dimension lists of the wrong type or whose sizes do not '
@@ -93,6 +93,15 @@ def generate(seed, tier):
         cases.append(_gen_array(derived_rng(seed, 'C19a', i), i))
     for i in range(n[1]):
         cases.append(_gen_image(derived_rng(seed, 'C19i', i), i))
+        # other file formats (comma-separated text, colour, tif, bmp) and resampling filters, from a stream of their own
+        rv = derived_rng(seed, 'C19iv', i)
+        if rv.random() < 0.45:
+            cases[-1]['fmt'] = rv.choice(['csv', 'rgb', 'tif', 'bmp', 'rgb'])
+            if cases[-1]['fmt'] == 'rgb':
+                cases[-1]['pix_gb'] = [[[rv.randint(0, 255), rv.randint(0, 255)] for _ in range(cases[-1]['w'])]
+                                       for _ in range(cases[-1]['h'])]
+        if cases[-1]['bin'] is not None and rv.random() < 0.6:
+            cases[-1]['interp'] = rv.choice(['NEAREST', 'BILINEAR', 'BOX'])
     if tier != 'quick':
         for j, (h, w) in enumerate(itertools.product(range(1, 7), repeat=2)):      # every size once, plain
             c = _gen_image(derived_rng(seed, 'C19ix', j), j, h, w)
@@ -348,9 +357,14 @@ def _run_image(inp, work):
     from PIL import Image
     from pyUSID.io.image import ImageTranslator
     pix = np.array(inp['pix'], dtype=np.uint8)
-    img_path = os.path.join(work, 'picture.' + inp['fmt'])
-    if inp['fmt'] == 'png':
+    img_path = os.path.join(work, 'picture.' + {'rgb': 'png'}.get(inp['fmt'], inp['fmt']))
+    if inp['fmt'] in ('png', 'tif', 'bmp'):
         Image.fromarray(pix, mode='L').save(img_path)
+    elif inp['fmt'] == 'rgb':
+        gb = np.array(inp['pix_gb'], dtype=np.uint8)
+        Image.fromarray(np.dstack([pix, gb[:, :, 0], gb[:, :, 1]]), mode='RGB').save(img_path)
+    elif inp['fmt'] == 'csv':
+        np.savetxt(img_path, pix.astype(float), delimiter=',')
     else:
         np.savetxt(img_path, pix.astype(float))
     h5_path = os.path.join(work, 'given.h5') if inp['h5_given'] else os.path.join(work, 'picture.h5')
@@ -361,6 +375,8 @@ def _run_image(inp, work):
     kw = {}
     if inp['bin'] is not None:
         kw['bin_factor'] = inp['bin']
+    if inp.get('interp'):
+        kw['interp_func'] = getattr(Image.Resampling, inp['interp'])
     with quiet():
         tr = ImageTranslator()
         r = call(tr.translate, img_path, h5_path=h5_path if inp['h5_given'] else None, normalize=inp['normalize'], **kw)
@@ -370,11 +386,11 @@ def _run_image(inp, work):
         return out
     out['returned'] = os.path.abspath(r[1]) == os.path.abspath(h5_path)
     # the processed image, recomputed with PIL / numpy directly
-    proc = pix.astype(float) if inp['fmt'] == 'txt' else np.asarray(Image.open(img_path).convert(mode='L'))
+    proc = pix.astype(float) if inp['fmt'] in ('txt', 'csv') else np.asarray(Image.open(img_path).convert(mode='L'))
     if inp['bin'] is not None:
         b = inp['bin'] if isinstance(inp['bin'], list) else [inp['bin'], inp['bin']]
         us, vs = int(proc.shape[0] / b[0]), int(proc.shape[1] / b[1])
-        proc = np.asarray(Image.fromarray(proc).resize((vs, us), resample=Image.Resampling.BICUBIC))
+        proc = np.asarray(Image.fromarray(proc).resize((vs, us), resample=getattr(Image.Resampling, inp.get('interp') or 'BICUBIC')))
     proc = proc.copy()
     if inp['normalize']:
         proc -= np.min(proc)
@@ -415,6 +431,19 @@ def _oracle_image(inp, obs):
         return fails
     if bool(obs['meas_attrs'].get('normalized')) != inp['normalize']:
         fails.append('parameters: normalized flag %s' % obs['meas_attrs'].get('normalized'))
+    ma = obs['meas_attrs']
+    if inp['bin'] is not None:
+        b = inp['bin'] if isinstance(inp['bin'], list) else [inp['bin'], inp['bin']]
+        if [int(x) for x in np.asarray(ma.get('image_binning_size', [])).ravel()] != b or \
+                str(ma.get('image_PIL_resample_mode')) != (inp.get('interp') or 'BICUBIC'):
+            fails.append('parameters: binning recorded as %s / %s, requested %s / %s'
+                         % (ma.get('image_binning_size'), ma.get('image_PIL_resample_mode'), b, inp.get('interp') or 'BICUBIC'))
+    elif 'image_binning_size' in ma:
+        fails.append('parameters: a binning size is recorded although none was requested')
+    vals = [float(x) for row in obs['proc'] for x in row]
+    if abs(float(ma.get('image_min', 'nan')) - min(vals)) > 1e-5 or abs(float(ma.get('image_max', 'nan')) - max(vals)) > 1e-5:
+        fails.append('parameters: recorded image_min / image_max %s / %s, of the stored image %s / %s'
+                     % (ma.get('image_min'), ma.get('image_max'), min(vals), max(vals)))
     fl = obs['file']
     proc = obs['proc']
     hh, ww = obs['proc_shape']
@@ -523,6 +552,10 @@ def model_requests_obs(inp, obs):
     if inp['kind'] == 'image':
         if inp['bin'] is not None or inp['normalize'] or 'err' in obs or inp['preexisting']:
             return []
+        if inp['fmt'] == 'rgb':
+            # colour is reduced to grey levels by PIL (not modelled): the model is handed the decoded grey image
+            return [{'op': 'trans.image', 'shape': [inp['h'], inp['w']],
+                     'flat': [int(round(float(x))) for row in obs['proc'] for x in row]}]
         return [{'op': 'trans.image', 'shape': [inp['h'], inp['w']], 'flat': [p for row in inp['pix'] for p in row]}]
     d = dict(obs['desc'])
     ds = inp['ds']
